@@ -12,6 +12,8 @@ EXPLANATION = (
     "Datagram built in the reaction, each in its own role (host and data are both Bytes); (R3) never blocking, "
     "never fatal: try_send only (C04.R3), the Datagram row of the reaction table (Full => no error), and every "
     "Datagram with a valid header decodes (C09.R2 on the Datagram arm).")
+EXPLANATION_ADDED = 'R2 also requires that no test of the frame id can bypass the opcode dispatch (any flow id is delivered); (R4) the datagram queue is sized by datagram_buffer_size.'
+EXPLANATION = EXPLANATION + " Added while testing against seeded changes: " + EXPLANATION_ADDED
 ASSUMPTIONS = ["single FIFO (S1) + bounded tokio queue give order and at-most-once"]
 NOT_DECIDED = "loss only when the buffer is full (needs counting at run time)"
 DG = "penguin_mux::Datagram"
